@@ -2,6 +2,7 @@ package object
 
 import (
 	"fmt"
+	"math"
 	"math/bits"
 	"runtime"
 	"runtime/debug"
@@ -21,10 +22,13 @@ func FreeMemory() int64 {
 }
 
 func SizeOk(n int) (bool, int64) {
-	if n <= 256 { // no checks for small slices (4k memory/one typical page)
+	if n >= 0 && n <= 256 { // no checks for small slices (4k memory/one typical page)
 		return true, 0
 	}
 	free := FreeMemory()
+	if n < 0 || int64(n) > math.MaxInt64/ObjectSize { // n * ObjectSize would overflow.
+		return false, free
+	}
 	return ((free >= 0) && ((int64(n) * ObjectSize) < free)), free
 }
 
